@@ -146,6 +146,10 @@ type c14sess struct {
 	ks     []byte // INFO keyspace reply
 	nCmd   int
 	failAt int
+	// failures in the clearing phase: the failSel-th `select` / the failHdel-th `hdel` is answered with an error reply
+	// (the scan phase of a load without errors sends exactly one select per db of the keyspace and no hdel)
+	failSel, failHdel int
+	nSel, nHdel       int
 }
 
 type c14err string
@@ -160,6 +164,18 @@ func (s *c14sess) exec(args [][]byte) interface{} {
 		return c14err("ERR empty")
 	}
 	cmd := strings.ToLower(string(args[0]))
+	if cmd == "select" {
+		s.nSel++
+		if s.nSel == s.failSel {
+			return c14err("ERR injected")
+		}
+	}
+	if cmd == "hdel" {
+		s.nHdel++
+		if s.nHdel == s.failHdel {
+			return c14err("ERR injected")
+		}
+	}
 	switch cmd {
 	case "info":
 		return s.ks
@@ -509,7 +525,15 @@ func runC14(f []string) string {
 		return fmt.Sprintf("ok:%s:%d:%d", hx([]byte(runid)), off, ver)
 	case "load":
 		st := c14parseState(f[4], utils.CheckpointKey)
-		sess := &c14sess{st: st, ks: unhx(f[2]), failAt: atoi(f[5])}
+		sess := &c14sess{st: st, ks: unhx(f[2])}
+		switch {
+		case strings.HasPrefix(f[5], "cs"):
+			sess.failSel = c14scanCommands(st)/2 + atoi(f[5][2:])
+		case strings.HasPrefix(f[5], "ch"):
+			sess.failHdel = atoi(f[5][2:])
+		default:
+			sess.failAt = atoi(f[5])
+		}
 		ret := c14load(string(unhx(f[1])), sess)
 		return "ret=" + ret + " st=" + st.String()
 	case "writer":
@@ -875,6 +899,11 @@ func genC14(g *gen) {
 			failAt = 1 + g.r.Intn(c14scanCommands(st))
 		}
 		g.emit("load %s %s %d %s %d", hx([]byte(own)), hx(ks), wf, st.String(), failAt)
+		// the target refuses one command while the stale checkpoints are being cleared: the load still returns the newest
+		// checkpoint, and no db has lost anything but the own run id / offset of a stale checkpoint
+		if wf == 1 && failAt == 0 && maxDbs <= 5 && i%4 == 0 {
+			g.emit("load %s %s %d %s %s%d", hx([]byte(own)), hx(ks), wf, st.String(), []string{"cs", "ch"}[g.r.Intn(2)], 1+g.r.Intn(4))
+		}
 	}
 	// ---- sender → loader
 	nw := g.pick(8, 60)
